@@ -8,6 +8,7 @@ import (
 
 	"github.com/luno/workflow/internal/graph"
 	"github.com/luno/workflow/internal/metrics"
+	"github.com/luno/workflow/internal/util"
 )
 
 type (
@@ -35,6 +36,10 @@ func newUpdater[Type any, Status StatusType](
 			runState = RunStateCompleted
 		}
 
+		// The status description must describe the status being written, not the one the run started with.
+		meta := record.Meta
+		meta.StatusDescription = util.CamelCaseToSpacing(next.String())
+
 		updatedRecord := &Record{
 			WorkflowName: record.WorkflowName,
 			ForeignID:    record.ForeignID,
@@ -44,7 +49,7 @@ func newUpdater[Type any, Status StatusType](
 			Object:       object,
 			CreatedAt:    record.CreatedAt,
 			UpdatedAt:    clock.Now(),
-			Meta:         record.Meta,
+			Meta:         meta,
 		}
 
 		latest, err := lookup(ctx, updatedRecord.RunID)
